@@ -102,6 +102,36 @@ func genC08(e *emitter, tier string, seed uint64) {
 				e.note("alias.reencode-family")
 			}
 		}
+		// a *computed* item (result of CAT / ADD / SPLIT / a hash: it may carry spare capacity) duplicated, and then BOTH
+		// copies transformed in turn — the first result must survive the second transformation
+		makers := [][]byte{
+			append(append(rawPush([]byte("a")), rawPush([]byte("b"))...), 0x7e),         // "a" "b" CAT
+			{0x52, 0x53, 0x93},                                                       // 2 3 ADD
+			append(append(rawPush([]byte{1, 2, 3, 4, 5}), 0x52), 0x7f, 0x75),           // <5 bytes> 2 SPLIT DROP
+			append(rawPush([]byte("xyz")), 0xa8),                                       // SHA256
+			append(append(rawPush([]byte{9}), rawPush([]byte{5})...), 0x80),            // 9 5 NUM2BIN
+			append(append(rawPush([]byte{0x12, 0x34}), 0x51), 0x98),                    // <1234> 1 LSHIFT
+		}
+		dups := [][]byte{{0x76}, {0x51, 0x78, 0x7c, 0x75}, {0x00, 0x79}, {0x76, 0x6b, 0x6c}} // DUP; 1 OVER SWAP DROP; 0 PICK; DUP TOALT FROMALT
+		seconds := []opn{}
+		for _, tail := range [][]byte{[]byte("c"), []byte("dd"), {0x00}, []byte("0123456789abcdef")} {
+			seconds = append(seconds, opn{"7e", append(rawPush(tail), 0x7e)})
+		}
+		seconds = append(seconds, opn{"8b", []byte{0x8b}}, opn{"81", []byte{0x81}}, opn{"83", []byte{0x83}}, opn{"98", []byte{0x51, 0x98}}, opn{"80", append(rawPush([]byte{0x21}), 0x80)})
+		for _, mk := range makers {
+			for _, dp := range dups {
+				for _, o1 := range seconds {
+					for _, o2 := range seconds {
+						lock := append(append([]byte{}, mk...), dp...)
+						lock = append(lock, o1.code...)
+						lock = append(lock, 0x7c) // SWAP: now the untouched copy is on top
+						lock = append(lock, o2.code...)
+						ixExec(e, era, []byte{}, lock)
+						e.note("alias.both-copies-transformed")
+					}
+				}
+			}
+		}
 		// both halves of SPLIT: transform one half, inspect the other
 		for _, op := range ops {
 			for _, x := range shapes {
